@@ -1,4 +1,155 @@
-import QipVerif.Model.Concat
-/-! C12 — property theorems (in progress) -/
+import QipVerif.Lemmas.ConcatTop
+/-!
+# C12 — compiled control pulses are exactly the scheduled instruction waveforms
+
+Property theorems only.  `Concat.concatenate` models `GateCompiler._concatenate_pulses`
+(`Concat.compiledChannel` is one channel of it: loop + final padding), with the two float tolerances
+`step_size * 1.0e-6` as the rational parameter `τ` and the first-pulse test selected by `byTol`
+(`true` = shipped code `abs(last_pulse_time) < step_size*1e-6`, `false` = repaired code
+`not compiled_tlist[pulse_ind]`, fixes/C12-1.patch).
+
+Hypotheses, all explicit:
+* `Chain 0 instrs` — the channel's instructions `(start, wave)` are sorted by start, do not overlap, start
+  at or after 0, and every wave is well formed (`WaveOK`: positive duration; sampled pulses start at 0,
+  increase strictly, have ≥ 1 step and `n-1` (discrete) or `n` (continuous) coefficients);
+* `Sep byTol τ true 0 instrs` — the **scale hypothesis**: every idle gap is `0` or `> step·τ`, and
+  (shipped test only) no later instruction is processed while less than `step·τ` of time is covered.
+Without `Sep` the statement is false: `scale_counterexample`, `gap_counterexample`.
+
+Specification objects: `Concat.specAt instrs t` (the scheduled function: the instruction's waveform inside
+its window, 0 elsewhere) and `Grid.stepAt g c t` (the step function a grid/coefficient pair denotes).
+-/
 namespace QipVerif.C12
+open QipVerif.Concat
+open QipVerif.Grid (stepAt)
+
+/-- **`_concatenate_pulses` channel by channel.** For every list of channels satisfying the hypotheses the
+whole function succeeds, and its output is `compiledChannel` of each channel with one common final time
+(≥ every channel's end), one common positive `min_step_size` and one padding mode. -/
+theorem concatenate_channels (byTol : Bool) (τ : Rat) (hτ : 0 < τ) (chans : List (List (Rat × Wave)))
+    (hne : chans ≠ []) (hch : ∀ ch ∈ chans, ch ≠ [] ∧ Chain 0 ch ∧ Sep byTol τ true 0 ch) :
+    ∃ (pm : Mode) (final ms : Rat) (outs : List (List Rat × List Rat)),
+      0 < ms ∧ (∀ ch ∈ chans, endOf 0 ch ≤ final) ∧
+      concatenate byTol τ chans = .ok outs ∧
+      mapMExcept (compiledChannel byTol τ pm final ms) chans = .ok outs :=
+  Concat.concatenate_channels byTol τ hτ chans hne
+    (fun ch hc => ⟨(hch ch hc).1, valid_of_chain_sep (hch ch hc).2.1 (hch ch hc).2.2⟩)
+
+/-- **Grid.** Every compiled channel has a time grid that starts at 0 and increases strictly — for every
+padding mode, every final time at or after the channel's end and every positive `min_step_size`. -/
+theorem grid_starts_at_zero_and_increases (byTol : Bool) (τ : Rat) (hτ : 0 < τ) (pm : Mode) (final ms : Rat)
+    (hms : 0 < ms) (instrs : List (Rat × Wave)) (hne : instrs ≠ [])
+    (hc : Chain 0 instrs) (hs : Sep byTol τ true 0 instrs) (hfin : endOf 0 instrs ≤ final) :
+    ∃ g c, compiledChannel byTol τ pm final ms instrs = .ok (g, c) ∧ g.head? = some 0 ∧ g.Pairwise (· < ·) := by
+  match instrs, hne with
+  | (s, w) :: rest, _ =>
+    refine ⟨_, _, compiledChannel_eq byTol τ hτ pm final ms hms _ (valid_of_chain_sep hc hs) hfin, rfl, ?_⟩
+    rw [headChunk_fst, List.append_assoc]
+    exact grid_ok τ hτ pm final ms hms s w rest hc
+
+/-- **Length.** The coefficient array fits the grid for the channel's pulse kind: a channel whose first
+instruction is discrete (scalar or `n-1` coefficients) has one coefficient per grid slot
+(`len(coeff) = len(tlist) - 1`), a channel whose first instruction is continuous one per grid point. -/
+theorem coefficient_length_fits (byTol : Bool) (τ : Rat) (hτ : 0 < τ) (pm : Mode) (final ms : Rat)
+    (hms : 0 < ms) (s : Rat) (w : Wave) (rest : List (Rat × Wave))
+    (hc : Chain 0 ((s, w) :: rest)) (hs : Sep byTol τ true 0 ((s, w) :: rest)) (hfin : endOf 0 ((s, w) :: rest) ≤ final) :
+    ∃ g c, compiledChannel byTol τ pm final ms ((s, w) :: rest) = .ok (g, c) ∧
+      (w.mode = .discrete → c.length + 1 = g.length) ∧ (w.mode = .continuous → c.length = g.length) := by
+  refine ⟨_, _, compiledChannel_eq byTol τ hτ pm final ms hms _ (valid_of_chain_sep hc hs) hfin, ?_, ?_⟩
+  · intro hm
+    have := (pureLoop_struct _ 0 hc).2.1
+    simp [headChunk, zeroChunk, hm, this]
+  · intro hm
+    have := (pureLoop_struct _ 0 hc).2.1
+    simp [headChunk, zeroChunk, hm, this]
+
+/-- **Waveform.** For a channel of discrete pulses (scalar rectangular or sampled with `n-1` coefficients)
+the step function denoted by the compiled grid and coefficients *is* the scheduled function, at every time
+`t`: inside the window of an instruction it is that instruction's waveform, everywhere else it is 0
+(including before 0 and after the final time). -/
+theorem discrete_channel_is_schedule (byTol : Bool) (τ : Rat) (hτ : 0 < τ) (pm : Mode) (final ms : Rat)
+    (hms : 0 < ms) (instrs : List (Rat × Wave)) (hne : instrs ≠ [])
+    (hc : Chain 0 instrs) (hs : Sep byTol τ true 0 instrs) (hfin : endOf 0 instrs ≤ final)
+    (hd : ∀ sw ∈ instrs, sw.2.mode = .discrete) :
+    ∃ g c, compiledChannel byTol τ pm final ms instrs = .ok (g, c) ∧ ∀ t, stepAt g c t = specAt instrs t := by
+  match instrs, hne with
+  | (s, w) :: rest, _ =>
+    refine ⟨_, _, compiledChannel_eq byTol τ hτ pm final ms hms _ (valid_of_chain_sep hc hs) hfin, ?_⟩
+    intro t
+    have hm : w.mode = .discrete := hd (s, w) (by simp)
+    have hz : headChunk true ((s, w) :: rest) = ([0], []) := by simp [headChunk, zeroChunk, hm]
+    rw [hz]
+    simp only [List.nil_append, List.cons_append]
+    rw [stepAt_pad 0 _ _ _ t (pureLoop_struct _ 0 hc).2.1.symm (grid_ok τ hτ pm final ms hms s w rest hc)]
+    exact pureLoop_discrete _ 0 hc hd t
+
+-- non-vacuity: two instructions with an idle gap, steps 2^-10 and 2^9; the hypotheses hold
+example : Chain 0 [(0, .scalar (1/1024) (1/2)), (1, .arr [0, 512, 1024] [3/4, -1/4])] ∧
+    Sep true (1/1000000) true 0 [(0, .scalar (1/1024) (1/2)), (1, .arr [0, 512, 1024] [3/4, -1/4])] := by
+  refine ⟨⟨?_, ?_, ?_, ?_, trivial⟩, ⟨?_, ?_, ?_, ?_, trivial⟩⟩
+  · show (0 : Rat) < 1/1024; decide +kernel
+  · decide +kernel
+  · exact ⟨by decide +kernel, by decide +kernel, by decide +kernel, Or.inl (by decide +kernel)⟩
+  · decide +kernel
+  · left; decide +kernel
+  · intro _ h; cases h
+  · right; show (1 : Rat) - (0 + 1/1024) > (512 - 0) * (1/1000000); decide +kernel
+  · intro _ _; show ((512 : Rat) - 0) * (1/1000000) ≤ 0 + 1/1024; decide +kernel
+
+example :
+    (compiledChannel true (1/1000000) .discrete 2000 (1/1024)
+        [(0, .scalar (1/1024) (1/2)), (1, .arr [0, 512, 1024] [3/4, -1/4])]).toOption
+      = some ([0, 1/1024, 1, 513, 1025, 2000], [1/2, 0, 3/4, -1/4, 0]) ∧
+    specAt [(0, .scalar (1/1024) (1/2)), (1, .arr [0, 512, 1024] [3/4, -1/4])] 600 = -1/4 ∧
+    specAt [(0, .scalar (1/1024) (1/2)), (1, .arr [0, 512, 1024] [3/4, -1/4])] (1/2) = 0 := by
+  decide +kernel
+
+/-- **Without `Sep` the statement is false** (shipped first-pulse test): one channel, durations
+`[10⁻⁹, 10⁴]`, no gap.  The second instruction is taken for a "first pulse" again because
+`|10⁻⁹| < 10⁴·10⁻⁶`: the grid is `[0, 10⁻⁹, 0, 10⁴+10⁻⁹]` — not increasing — with 2 coefficients for 4
+grid points.  The repaired test (`byTol = false`) gives `[0, 10⁻⁹, 10⁴+10⁻⁹]`. -/
+theorem scale_counterexample :
+    let instrs : List (Rat × Wave) := [(0, .scalar (1/1000000000) (1/2)), (1/1000000000, .scalar 10000 (1/2))]
+    Chain 0 instrs ∧ ¬ Sep true (1/1000000) true 0 instrs ∧
+    (concatenate true (1/1000000) [instrs]).toOption
+      = some [([0, 1/1000000000, 0, 10000000000001/1000000000], [1/2, 1/2])] ∧
+    ¬ ([0, 1/1000000000, 0, 10000000000001/1000000000] : List Rat).Pairwise (· < ·) ∧
+    (concatenate false (1/1000000) [instrs]).toOption
+      = some [([0, 1/1000000000, 10000000000001/1000000000], [1/2, 1/2])] := by
+  refine ⟨?_, ?_, ?_, ?_, ?_⟩
+  · refine ⟨?_, by decide +kernel, ?_, by decide +kernel, trivial⟩
+    · show (0 : Rat) < 1/1000000000; decide +kernel
+    · show (0 : Rat) < 10000; decide +kernel
+  · intro h
+    have h2 := h.2.2.2.1 rfl rfl
+    revert h2
+    show ¬ ((10000 : Rat) * (1/1000000) ≤ 0 + 1/1000000000)
+    decide +kernel
+  · decide +kernel
+  · decide +kernel
+  · decide +kernel
+
+/-- **The gap clause of `Sep` is needed too** (both first-pulse tests): instruction A on `[0,1)`, then B
+(one rectangular pulse of length `2^21`) scheduled at `t = 2` because another channel is busy on `[1,2)`.
+The gap `1` is below `2^21·10⁻⁶ ≈ 2.1`, no idle point is inserted and B's coefficient is applied from
+`t = 1` on: at `t = 3/2` the compiled function is `3/4` while no instruction uses the channel. -/
+theorem gap_counterexample :
+    let instrs : List (Rat × Wave) := [(0, .scalar 1 (1/2)), (2, .scalar 2097152 (3/4))]
+    Chain 0 instrs ∧ ¬ Sep false (1/1000000) true 0 instrs ∧
+    (compiledChannel false (1/1000000) .discrete 2097154 1 instrs).toOption
+      = some ([0, 1, 2097154], [1/2, 3/4]) ∧
+    stepAt [0, 1, 2097154] [1/2, 3/4] (3/2) = 3/4 ∧ specAt instrs (3/2) = 0 := by
+  refine ⟨?_, ?_, ?_, ?_, ?_⟩
+  · refine ⟨?_, by decide +kernel, ?_, by decide +kernel, trivial⟩
+    · show (0 : Rat) < 1; decide +kernel
+    · show (0 : Rat) < 2097152; decide +kernel
+  · intro h
+    have h2 := h.2.2.1
+    revert h2
+    show ¬ ((2 : Rat) - (0 + 1) = 0 ∨ (2 : Rat) - (0 + 1) > 2097152 * (1/1000000))
+    decide +kernel
+  · decide +kernel
+  · decide +kernel
+  · decide +kernel
+
 end QipVerif.C12
